@@ -102,11 +102,20 @@ func genSplitLog(r *rand.Rand, db *logq.DB, o logq.GenOpts) *logq.LogQuery {
 			}
 			q.Stages = append(q.Stages, logq.Stage{Kind: "line", Op: ops[r.Intn(len(ops))], Val: []string{"error", "warn", "GET", "u1", "deep1", "x"}[r.Intn(6)]})
 		case 4:
-			p := logq.Param{A: []string{"lvl", "pod", "lvl2", "msg"}[r.Intn(4)]}
-			if r.Intn(2) == 0 {
-				p.HasB, p.B = true, []string{"err", "info", "p1"}[r.Intn(3)]
+			// one to three parameters; the same label may be named more than once (with different values, or bare
+			// and with a value)
+			var ps []logq.Param
+			for k, np := 0, 1+r.Intn(3); k < np; k++ {
+				p := logq.Param{A: []string{"lvl", "pod", "lvl2", "msg"}[r.Intn(4)]}
+				if k > 0 && r.Intn(2) == 0 {
+					p.A = ps[0].A
+				}
+				if r.Intn(2) == 0 {
+					p.HasB, p.B = true, []string{"err", "info", "p1", "dbg"}[r.Intn(4)]
+				}
+				ps = append(ps, p)
 			}
-			q.Stages = append(q.Stages, logq.Stage{Kind: "drop", Params: []logq.Param{p}})
+			q.Stages = append(q.Stages, logq.Stage{Kind: "drop", Params: ps})
 		case 5:
 			if r.Intn(2) == 0 {
 				q.Stages = append(q.Stages, logq.Stage{Kind: "label_format", Params: []logq.Param{{A: "copy", B: "app"}}})
